@@ -1,10 +1,20 @@
-From Coq Require Import List Bool.
-From Texel Require Import Ctl.Uci Ctl.Engine Ctl.Dec Ctl.CtlSpec Ctl.Reach Ctl.CtlInv.
+From Coq Require Import ZArith List Bool Arith Lia.
+From Texel Require Import Workers.Workers Workers.WorkersLemmas Workers.WorkersInv.
 Import ListNotations.
-Time Eval vm_compute in (check_all false, check_all true).
-(* diagnose: which conjunct fails *)
-Definition bad_s (g:bool) := filter (fun p => negb (sinv g p)) (reachset g).
-Definition bad_t (g:bool) := flat_map (fun p => map (fun ls => (p, ls)) (filter (fun ls => negb (tinv g p (fst ls) (snd ls))) (psuccs g p))) (reachset g).
-Time Eval vm_compute in (length (bad_s false), length (bad_t false), length (bad_s true), length (bad_t true)).
-Eval vm_compute in (hd_error (bad_s true)).
-Eval vm_compute in (hd_error (bad_t true)).
+Section P.
+Variable N : nat.
+Variable parent : tid -> option tid.
+Hypothesis Htree : tree_ok N parent.
+Notation InvE := (InvE N parent).
+Notation lstep := (lstep N parent).
+
+Lemma step_g1 : forall s lb s', InvE s -> lstep s lb = Some s' ->
+  forall t, t <= N -> ae (th s' 0) <= se (th s' t) /\ se (th s' t) <= se (th s' 0).
+Proof.
+  intros s lb s' I H t Ht.
+  pose proof (e_g1 _ _ _ I t Ht) as G1.
+  pose proof (e_g1 _ _ _ I) as G1a.
+  Time step_inv_fine H; ssimpl; upd_cases; ssimpl; try lia.
+  Show.
+Abort.
+End P.
